@@ -106,10 +106,11 @@ func (u *memoryManagementUnit) fetchCacheLine(addr int32) []int8 {
 func (u *memoryManagementUnit) pushLineToL1D(addr comp.AlignedAddress, line []int8) {
 	addr -= addr % l1DCacheLineSize
 	evicted := u.l1d.PushLine(addr, line)
-	if len(evicted) == 0 {
+	if evicted == nil {
 		return
 	}
-	u.writeToMemory(int32(addr), line)
+	// Write back the evicted line, it may hold stores
+	u.writeToMemory(int32(evicted.Boundary[0]), evicted.Data)
 }
 
 func (u *memoryManagementUnit) writeToL1D(addr int32, data []int8) {
